@@ -18,18 +18,55 @@ import (
 
 // ---- key spelling shared with the other C11 harnesses ----
 
-func c11IP(id int) net.IP  { return net.IPv4(10, 0, byte(id/256), byte(id%256)) }
+// Source addresses are ids of the table in vlim (IPv4, IPv6 incl. several hosts of one /64, IPv4-mapped, odd
+// ones); the key the code derives from each is observed (c11Keys), not assumed.
+func c11V4(id int) net.IP  { return net.IPv4(10, 0, byte(id/256), byte(id%256)) }
+func c11IP(id int) net.IP  { return vlim.Addr(id, c11V4) }
 func c11Dom(id int) string { return "d" + strconv.Itoa(id) + ".example" }
-func c11KeyID(_ int, k string) int {
+
+var c11Keys = vlim.NewIPKeys(c11V4)
+
+func c11KeyID(scope int, k string) int {
+	if scope == 1 {
+		return c11Keys.KeyID(k)
+	}
 	if strings.HasPrefix(k, "d") && strings.HasSuffix(k, ".example") {
 		n, _ := strconv.Atoi(k[1 : len(k)-len(".example")])
 		return n
 	}
-	ip := net.ParseIP(k).To4()
-	if ip == nil {
-		return -1
+	return -1
+}
+
+// c11Line builds a grp op line: cfg, the observed key tokens of the addresses the ops mention, the ops.
+func c11Line(cfg vlim.Cfg, ops []string) string {
+	var addrs []int
+	for _, o := range ops {
+		if f := strings.Split(o, "."); (f[0] == "T" || f[0] == "R") && len(f) > 1 {
+			a, _ := strconv.Atoi(f[1])
+			addrs = append(addrs, a)
+		}
 	}
-	return int(ip[2])*256 + int(ip[3])
+	return "C11 grp " + cfg.String() + " " + strings.Join(append(c11Keys.Tokens(addrs), ops...), " ")
+}
+
+// c11KeyLaw reports the addresses of the ops for which TakeMsg, its roll-back and ReleaseMsg were observed to
+// use different buckets (the hypothesis IpKeys.Lawful of the theorems, checked on the real code).
+func c11KeyLaw(out *vh.Out, opl string, ops []string) {
+	seen := map[int]bool{}
+	for _, o := range ops {
+		f := strings.Split(o, ".")
+		if (f[0] != "T" && f[0] != "R") || len(f) < 2 {
+			continue
+		}
+		a, _ := strconv.Atoi(f[1])
+		if seen[a] {
+			continue
+		}
+		seen[a] = true
+		if d := c11Keys.Unlawful(a); d != "" {
+			out.Violation("C11/key-law", opl, fmt.Sprintf("address %d (%v): %s", a, c11IP(a), d))
+		}
+	}
 }
 
 func c11RandCfg(r *vh.Rng) vlim.Cfg {
@@ -160,8 +197,14 @@ func c11Do(g *limits.Group, op string) (res string, detail string) {
 }
 
 // one Group case: ops either replayed (fixed) or generated on the fly from the real results.
-func c11GrpCase(out *vh.Out, cfg vlim.Cfg, r *vh.Rng, fixed []string) {
-	opLine := func(ops []string) string { return "C11 grp " + cfg.String() + " " + strings.Join(ops, " ") }
+func c11GrpCase(out *vh.Out, cfg vlim.Cfg, r *vh.Rng, fixed []string, lawCheck bool) {
+	opLine := func(ops []string) string { return c11Line(cfg, ops) }
+	if fixed != nil {
+		fixed = vlim.StripKeyTokens(fixed)
+		if lawCheck {
+			c11KeyLaw(out, opLine(fixed), fixed)
+		}
+	}
 	g, p, err := vlim.NewGroup(cfg)
 	if p != nil {
 		out.Violation("C11/panic-init", opLine(fixed), fmt.Sprintf("Group.Init panicked: %v", p))
@@ -183,6 +226,13 @@ func c11GrpCase(out *vh.Out, cfg vlim.Cfg, r *vh.Rng, fixed []string) {
 		nOps = len(fixed)
 	}
 	nKeys := 2 + r.Intn(5)
+	pool := vlim.AddrPool(r.Intn, nKeys)
+	if fixed == nil {
+		for _, a := range pool {
+			out.Stat("grp:addr:" + vlim.AddrClass(a))
+		}
+	}
+	ipOf := func() int { return pool[r.Intn(nKeys)] }
 	panicked := false
 	misuse := false
 	for i := 0; i < nOps && !panicked; i++ {
@@ -194,7 +244,7 @@ func c11GrpCase(out *vh.Out, cfg vlim.Cfg, r *vh.Rng, fixed []string) {
 			x := r.Intn(100)
 			switch {
 			case x < 38:
-				op = fmt.Sprintf("T.%d.%d", 1+r.Intn(nKeys), 1+r.Intn(nKeys))
+				op = fmt.Sprintf("T.%d.%d", ipOf(), 1+r.Intn(nKeys))
 			case x < 55:
 				op = fmt.Sprintf("D.%d", 1+r.Intn(nKeys))
 			case x < 78 && len(held.msg) > 0:
@@ -205,12 +255,12 @@ func c11GrpCase(out *vh.Out, cfg vlim.Cfg, r *vh.Rng, fixed []string) {
 			case x >= 98:
 				// client misuse: release of something never taken (correspondence only)
 				if r.Bool() {
-					op = fmt.Sprintf("R.%d.%d", 1+r.Intn(nKeys), 1+r.Intn(nKeys))
+					op = fmt.Sprintf("R.%d.%d", ipOf(), 1+r.Intn(nKeys))
 				} else {
 					op = fmt.Sprintf("E.%d", 1+r.Intn(nKeys))
 				}
 			default:
-				op = fmt.Sprintf("T.%d.%d", 1+r.Intn(nKeys), 1+r.Intn(nKeys))
+				op = fmt.Sprintf("T.%d.%d", ipOf(), 1+r.Intn(nKeys))
 			}
 		}
 		f := strings.Split(op, ".")
@@ -259,13 +309,13 @@ func c11GrpCase(out *vh.Out, cfg vlim.Cfg, r *vh.Rng, fixed []string) {
 			switch f[0] {
 			case "T":
 				held.msg = append(held.msg, [2]int{a1, a2})
-				mon.msg(a1, a2, +1)
+				mon.msg(vlim.MonID(a1), a2, +1)
 			case "D":
 				held.dest = append(held.dest, a1)
 				mon.hold[3][a1]++
 			case "R":
 				if valid {
-					mon.msg(a1, a2, -1)
+					mon.msg(vlim.MonID(a1), a2, -1)
 				}
 			case "E":
 				if valid {
@@ -330,7 +380,15 @@ func c11GrpCase(out *vh.Out, cfg vlim.Cfg, r *vh.Rng, fixed []string) {
 		return
 	}
 	vlim.Tune(g, -1, cfg.MaxB) // the reap interval has passed
-	c11Capacity(out, g, cfg, opLine(ops), []int{1, 900})
+	// keys of the probe are a function of the op line (replayable): the first address it mentions and a fresh one
+	oldKey := 1
+	for _, o := range ops {
+		if f := strings.Split(o, "."); f[0] == "T" {
+			oldKey, _ = strconv.Atoi(f[1])
+			break
+		}
+	}
+	c11Capacity(out, g, cfg, opLine(ops), []int{oldKey, []int{900, 139, 159, 206}[len(ops)%4]})
 	out.Stat("grp:quiescent-checked")
 }
 
@@ -400,14 +458,37 @@ func TestVerifC11Group(t *testing.T) {
 			if err != nil {
 				t.Fatal(err)
 			}
-			c11GrpCase(out, cfg, vh.NewRng(1), append([]string{}, f[3:]...))
+			c11GrpCase(out, cfg, vh.NewRng(1), append([]string{}, f[3:]...), true)
 		}
 		return
+	}
+	for _, nt := range c11Keys.ProbeNotes() {
+		out.Note("ip key probe: " + nt)
+	}
+	// the key law, address by address: a minimal case for every address whose three keys differ
+	lawCfg, _ := vlim.ParseCfg("-/s1/s1/-/-1/20010")
+	for _, a := range vlim.AllAddrIDs() {
+		if c11Keys.Unlawful(a) == "" {
+			out.Stat("grp:key-law:ok:" + vlim.AddrClass(a))
+			continue
+		}
+		out.Stat("grp:key-law:broken:" + vlim.AddrClass(a))
+		b := 1
+		if tb, _, _ := c11Keys.Entry(b); func() bool { ta, _, _ := c11Keys.Entry(a); return ta == tb }() {
+			b = 2
+		}
+		undoBroken, relBroken := c11Keys.Broken(a)
+		if undoBroken { // a message from b holds the sender domain, the one from a is refused there and rolled back
+			c11GrpCase(out, lawCfg, vh.NewRng(1), []string{fmt.Sprintf("T.%d.1", b), fmt.Sprintf("T.%d.1", a), fmt.Sprintf("R.%d.1", b)}, true)
+		}
+		if relBroken {
+			c11GrpCase(out, lawCfg, vh.NewRng(1), []string{fmt.Sprintf("T.%d.1", a), fmt.Sprintf("R.%d.1", a)}, true)
+		}
 	}
 	n := vh.N(400)
 	for i := 0; i < n; i++ {
 		r := vh.NewRng(vh.Seed()*1000003 + uint64(i))
-		c11GrpCase(out, c11RandCfg(r), r, nil)
+		c11GrpCase(out, c11RandCfg(r), r, nil, false)
 	}
 }
 
@@ -444,6 +525,10 @@ func c11ConcCase(out *vh.Out, cfg vlim.Cfg, seed uint64, workers, rounds, nKeys 
 		return
 	}
 	defer vlim.CloseGroup(g)
+	pool := vlim.AddrPool(vh.NewRng(seed*31+5).Intn, nKeys)
+	for _, a := range pool {
+		out.Stat("conc:addr:" + vlim.AddrClass(a))
+	}
 	var occ c11Occ
 	var viol atomic.Value
 	var wg sync.WaitGroup
@@ -484,7 +569,7 @@ func c11ConcCase(out *vh.Out, cfg vlim.Cfg, seed uint64, workers, rounds, nKeys 
 			}()
 			r := vh.NewRng(seed*7919 + uint64(w))
 			for i := 0; i < rounds; i++ {
-				ip, d := 1+r.Intn(nKeys), 1+r.Intn(nKeys)
+				ip, d := pool[r.Intn(nKeys)], 1+r.Intn(nKeys)
 				to := time.Duration(1+r.Intn(4000)) * time.Microsecond
 				if r.Chance(10) {
 					to = 0 // already expired context
@@ -497,7 +582,7 @@ func c11ConcCase(out *vh.Out, cfg vlim.Cfg, seed uint64, workers, rounds, nKeys 
 					continue
 				}
 				enter(0, 0)
-				enter(1, ip)
+				enter(1, vlim.MonID(ip))
 				enter(2, d)
 				var dests []int
 				nd := r.Intn(3)
@@ -526,7 +611,7 @@ func c11ConcCase(out *vh.Out, cfg vlim.Cfg, seed uint64, workers, rounds, nKeys 
 					g.ReleaseDest(c11Dom(dd))
 				}
 				leave(0, 0)
-				leave(1, ip)
+				leave(1, vlim.MonID(ip))
 				leave(2, d)
 				g.ReleaseMsg(c11IP(ip), c11Dom(d))
 				cancel()
@@ -554,7 +639,7 @@ func c11ConcCase(out *vh.Out, cfg vlim.Cfg, seed uint64, workers, rounds, nKeys 
 		return
 	}
 	vlim.Tune(g, -1, cfg.MaxB)
-	c11Capacity(out, g, cfg, opl, []int{1, 900})
+	c11Capacity(out, g, cfg, opl, []int{pool[0], 900})
 }
 
 func c11ParseKV(f []string) map[string]int {
